@@ -1376,6 +1376,7 @@ func (m *RadioTap) DecodeFromBytes(data []byte, df gopacket.DecodeFeedback) erro
 	// now we extract a namespace for each Present bitmap, the first is always a radio tap namespace
 	radioTapNamespace := true
 	vendorNamespace := false
+	m.RadioTapValues, m.VendorValues = m.RadioTapValues[:0], m.VendorValues[:0]
 	for _, present := range m.Present {
 		if radioTapNamespace {
 			rValues, newOffset, err := RadioTapNamespace{}.decodeRadioTapNamespace(data, offset, present)
